@@ -1,6 +1,7 @@
 package gen
 
 import (
+	"math"
 	"fmt"
 	"strconv"
 	"strings"
@@ -49,6 +50,15 @@ func spell(r *run.Rng, flag bool, plus bool) (float64, string) {
 		if plus && r.Chance(1, 3) {
 			s = "+" + s
 		}
+	}
+	if plus && r.Chance(1, 400) {
+		// a number beyond the float32 range, written out digit by digit (there are no
+		// exponents in the dialect): it means an infinite coordinate
+		s = strconv.Itoa(r.Range(35, 99)) + strings.Repeat("0", r.Range(37, 44))
+		if r.Bool() {
+			s = "-" + s
+		}
+		return math.Inf(map[bool]int{true: -1, false: 1}[s[0] == '-']), s
 	}
 	v, _ := strconv.ParseFloat(s, 64)
 	return v, s
